@@ -394,8 +394,8 @@ pub fn oracle_c09_c10(op: &str, outs: &[String], check_c09: bool, check_c10: boo
                                 if Some((tx.rf.sf, tx.rf.bw)) != want {
                                     return format!("FAIL:join-on-channel-{}-with-sf{}-bw{}", c, tx.rf.sf, tx.rf.bw);
                                 }
-                            } else if !fallback && (s.jc.starts_with("0,") || s.jc.split(',').nth(2) == Some("-")) {
-                                // no join bias in force: the data channel must be enabled in the mask
+                            } else if !fallback {
+                                // the data channel must be enabled in the mask (a join bias is only a preference)
                                 if s.mask[c / 8] & (1 << (c % 8)) == 0 {
                                     return format!("FAIL:data-uplink-on-disabled-channel-{}", c);
                                 }
